@@ -206,6 +206,74 @@ pub struct FeGen {
     pub closed_gate_rate: u64,
 }
 
+/// Run both reference models (frontend-side gating, backend server) over a call list.
+pub fn build_fe_items(all: Vec<(FReq, Script, Option<&'static str>)>, need_reply: bool, policy: Policy) -> Vec<FeItem> {
+    // reference models: what the frontend knows, and what the backend server does
+    let mut fen = FeNego::default();
+    let mut nego = Nego::default();
+    let mut items = Vec::new();
+    let mut alive = true;
+    for (req, script, why) in all {
+        if let Some(w) = why {
+            items.push(FeItem {
+                req,
+                script,
+                exp: Expect::LocalReject(w),
+                want_ok: Some(false),
+            });
+            continue;
+        }
+        if !fen.open(&req) {
+            if matches!(req, FReq::SetLogBase { .. }) {
+                // without LOG_SHMFD the API sends a bare 64-bit SET_LOG_BASE, which the property
+                // lists neither under accepted nor under rejected calls: not generated
+                continue;
+            }
+            items.push(FeItem {
+                req,
+                script,
+                exp: Expect::LocalReject("feature_not_negotiated"),
+                want_ok: Some(false),
+            });
+            continue;
+        }
+        let exp = server::model_step(&mut nego, &req, need_reply, &script, policy);
+        // frontend-side bookkeeping
+        match &req {
+            FReq::GetFeatures if !script.fail => fen.offered_virtio = script.val,
+            FReq::SetFeatures(x) => fen.acked_virtio = *x & fen.offered_virtio,
+            FReq::SetProtocolFeatures(x) => fen.acked_proto = *x,
+            _ => {}
+        }
+        // what the caller must see (C03): only for operations with a reply or a negotiated ack
+        let want_ok = if !alive {
+            None
+        } else {
+            match req.reply_rule() {
+                ReplyRule::Reply => Some(exp.called && matches!(&exp.out, Out::Reply { .. }) && reply_is_success(&req, &script)),
+                ReplyRule::Ack => {
+                    let fe_waits = need_reply && fen.acked_proto & pf::REPLY_ACK != 0;
+                    if fe_waits && matches!(exp.out, Out::Ack { .. }) {
+                        Some(!script.fail)
+                    } else {
+                        None
+                    }
+                }
+            }
+        };
+        if exp.stop {
+            alive = false;
+        }
+        items.push(FeItem {
+            req,
+            script,
+            exp: Expect::Sent(exp),
+            want_ok,
+        });
+    }
+    items
+}
+
 pub fn gen_fe_session(t: &mut Tape, o: &FeGen) -> FeSession {
     // handler failures are only meaningful under the daemon's policy (stop serving and close
     // after a failed request): without it a failed reply-bearing request has no answer at all
@@ -275,69 +343,7 @@ pub fn gen_fe_session(t: &mut Tape, o: &FeGen) -> FeSession {
         }
         all.push((r, s, why));
     }
-    // reference models: what the frontend knows, and what the backend server does
-    let mut fen = FeNego::default();
-    let mut nego = Nego::default();
-    let mut items = Vec::new();
-    let mut alive = true;
-    for (req, script, why) in all {
-        if let Some(w) = why {
-            items.push(FeItem {
-                req,
-                script,
-                exp: Expect::LocalReject(w),
-                want_ok: Some(false),
-            });
-            continue;
-        }
-        if !fen.open(&req) {
-            if matches!(req, FReq::SetLogBase { .. }) {
-                // without LOG_SHMFD the API sends a bare 64-bit SET_LOG_BASE, which the property
-                // lists neither under accepted nor under rejected calls: not generated
-                continue;
-            }
-            items.push(FeItem {
-                req,
-                script,
-                exp: Expect::LocalReject("feature_not_negotiated"),
-                want_ok: Some(false),
-            });
-            continue;
-        }
-        let exp = server::model_step(&mut nego, &req, need_reply, &script, policy);
-        // frontend-side bookkeeping
-        match &req {
-            FReq::GetFeatures if !script.fail => fen.offered_virtio = script.val,
-            FReq::SetFeatures(x) => fen.acked_virtio = *x & fen.offered_virtio,
-            FReq::SetProtocolFeatures(x) => fen.acked_proto = *x,
-            _ => {}
-        }
-        // what the caller must see (C03): only for operations with a reply or a negotiated ack
-        let want_ok = if !alive {
-            None
-        } else {
-            match req.reply_rule() {
-                ReplyRule::Reply => Some(exp.called && matches!(&exp.out, Out::Reply { .. }) && reply_is_success(&req, &script)),
-                ReplyRule::Ack => {
-                    let fe_waits = need_reply && fen.acked_proto & pf::REPLY_ACK != 0;
-                    if fe_waits && matches!(exp.out, Out::Ack { .. }) {
-                        Some(!script.fail)
-                    } else {
-                        None
-                    }
-                }
-            }
-        };
-        if exp.stop {
-            alive = false;
-        }
-        items.push(FeItem {
-            req,
-            script,
-            exp: Expect::Sent(exp),
-            want_ok,
-        });
-    }
+    let items = build_fe_items(all, need_reply, policy);
     FeSession {
         items,
         need_reply,
